@@ -264,3 +264,16 @@ def i_newcond(ex, fr, ins, name, args, st, k):
 @assumed('fmt.Sprintf', 'fmt.Sprintf returns some string')
 def i_sprintf(ex, fr, ins, name, args, st, k):
     k(st, V('string', ex.fresh('sprintf', Str)))
+
+
+@assumed('github.com/fufuok/cache/internal/xsync.hashString',
+         'hashString(s, seed) is a deterministic total function of (s, seed); hashString("", seed) == seed (unsafe/linkname body not verified)')
+def i_hashstring(ex, fr, ins, name, args, st, k):
+    f = z3.Function('memhash_str', Str, BV64, BV64)
+    s_, seed = args[0].x, args[1].x
+    k(st, V('uint64', z3.If(s_ == STR_EMPTY, seed, f(s_, seed))))
+
+
+@assumed('github.com/fufuok/cache/internal/xsync.makeSeed', 'makeSeed returns an arbitrary 64-bit value')
+def i_makeseed(ex, fr, ins, name, args, st, k):
+    k(st, V('uint64', ex.fresh('seed', BV64)))
